@@ -531,7 +531,7 @@ def run(ctx):
                 "body exception, anyio scope cancel, anyio scope deadline, asyncio task.cancel, asyncio.timeout) x 3 moments (before "
                 "the first message, request in flight, after a response) x entry point (stdio_client / StdioClient / StdioTransport: "
                 "one seeded per cell in the quick tier, all three in the thorough tier), plus 6 kinds of unstartable command x 3 entry "
-                "points; every scenario runs in one of 12 worker processes, scenarios within a worker sequentially so that "
+                "points; 60 x 16 KiB of unread outgoing messages, a burst sent in the same instant as the cancellation (every entry x every cancellation path), and one StdioClient object used for two conversations; every scenario runs in one of 12 worker processes, scenarios within a worker sequentially so that "
                 "/proc/self/fd is attributable; distinct = distinct (mode, path, moment, entry, delay); all are non-trivial (a real "
                 "process is spawned, or spawning really fails)")
     return lib.finish(ctx, TRUSTED, ASSUME)
